@@ -449,7 +449,7 @@ func c10W4(c *mon.Ctx) {
 	runtime.GOMAXPROCS(16)
 	g := lint.GlobalRegistry()
 	n := directedCount(c)
-	tail := genPoolSize() + extShapeSize(c)
+	tail := directedSmallTail(c)
 	stride := c.Pick(29, 7)
 	phase := int(uint64(c.Seed) % uint64(stride))
 	var objs []*mon.Obj
